@@ -33,6 +33,7 @@ import (
 
 	"github.com/iotaledger/hive.go/ds"
 	"github.com/iotaledger/hive.go/ds/reactive"
+	"github.com/iotaledger/hive.go/serializer/v2/serix"
 )
 
 // ---------------------------------------------------------------- API adapter (Variable[int] and Event alike)
@@ -937,7 +938,7 @@ func runVariantsSet(rng *rand.Rand) (viols []viol, st runStats) {
 	}
 	plans := make([][]step, W+1)
 	gen := func() step {
-		kinds := []string{"add", "add", "delete", "delete", "toggle", "addall", "deleteall", "replace", "apply"}
+		kinds := []string{"add", "add", "delete", "delete", "toggle", "addall", "deleteall", "replace", "apply", "clear", "decode", "decode"}
 		stp := step{Kind: kinds[rng.Intn(len(kinds))], Yield: rng.Intn(4)}
 		switch stp.Kind {
 		case "add", "delete", "toggle":
@@ -973,34 +974,58 @@ func runVariantsSet(rng *rand.Rand) (viols []viol, st runStats) {
 			splans[s] = append(splans[s], p)
 		}
 	}
-	set := reactive.NewSet[int]()
+	// int64 elements: the serialisation used by Decode has no encoding for int
+	set := reactive.NewSet[int64]()
 	if rng.Intn(2) == 0 {
-		set.AddAll(setOf(uint32(rng.Intn(1 << E))))
+		set.AddAll(set64(uint32(rng.Intn(1 << E))))
 	}
 	exec := func(stp step) {
 		switch stp.Kind {
 		case "add":
-			set.Add(bitsTZ(stp.A))
+			set.Add(int64(bitsTZ(stp.A)))
 		case "delete":
-			set.Delete(bitsTZ(stp.A))
+			set.Delete(int64(bitsTZ(stp.A)))
 		case "toggle":
-			e := bitsTZ(stp.A)
-			set.Compute(func(cur ds.ReadableSet[int]) ds.SetMutations[int] {
+			e := int64(bitsTZ(stp.A))
+			set.Compute(func(cur ds.ReadableSet[int64]) ds.SetMutations[int64] {
 				if cur.Has(e) {
-					return ds.NewSetMutations[int]().WithDeletedElements(ds.NewSet(e))
+					return ds.NewSetMutations[int64]().WithDeletedElements(ds.NewSet(e))
 				}
-				return ds.NewSetMutations[int](e)
+				return ds.NewSetMutations[int64](e)
 			})
 		case "addall":
-			set.AddAll(setOf(stp.A))
+			set.AddAll(set64(stp.A))
 		case "deleteall":
-			set.DeleteAll(setOf(stp.A))
+			set.DeleteAll(set64(stp.A))
 		case "replace":
-			set.Replace(setOf(stp.A))
+			set.Replace(set64(stp.A))
 		case "apply":
-			set.Apply(ds.NewSetMutations[int]().WithAddedElements(setOf(stp.A)).WithDeletedElements(setOf(stp.B)))
+			set.Apply(ds.NewSetMutations[int64]().WithAddedElements(set64(stp.A)).WithDeletedElements(set64(stp.B)))
+		case "clear":
+			set.Clear()
+		case "decode": // merges the encoded elements into the set
+			b, err := set64(stp.A).Encode(serixAPI)
+			if err != nil {
+				panic(err)
+			}
+			if _, err = set.Decode(serixAPI, b); err != nil {
+				panic(err)
+			}
 		}
 	}
+	for _, pl := range plans {
+		for _, stp := range pl {
+			st.add("set_writes:"+stp.Kind, 1)
+		}
+	}
+	// a plain OnUpdate subscriber registered before everything else folds the reported mutations (adds, then deletes)
+	var foldMu sync.Mutex
+	var fold uint32
+	set.OnUpdate(func(m ds.SetMutations[int64]) {
+		foldMu.Lock()
+		fold = (fold | mask64(m.AddedElements())) &^ mask64(m.DeletedElements())
+		foldMu.Unlock()
+	})
 	var pn panics
 	start := make(chan struct{})
 	var wg sync.WaitGroup
@@ -1030,10 +1055,11 @@ func runVariantsSet(rng *rand.Rand) (viols []viol, st runStats) {
 				subs[g] = append(subs[g], sb)
 				sb.SubCall = tick()
 				var unsub func()
+				setup := func(e int64) func() { return sb.setup(int(e)) }
 				if p.Cond == "" {
-					unsub = set.WithElements(sb.setup)
+					unsub = set.WithElements(setup)
 				} else {
-					unsub = set.WithElements(sb.setup, func(e int) bool { return elemCond(p.Cond, e) })
+					unsub = set.WithElements(setup, func(e int64) bool { return elemCond(p.Cond, int(e)) })
 				}
 				sb.SubRet = tick()
 				if p.Unsub {
@@ -1058,8 +1084,11 @@ func runVariantsSet(rng *rand.Rand) (viols []viol, st runStats) {
 	if len(pn.rec) > 0 {
 		return []viol{{"variants/set/panic", "panic inside a reactive.Set operation: " + pn.rec[0].Value, pn.rec}}, st
 	}
-	final := maskOf(set)
+	final := mask64(set)
 	st.ops = W*nOps + 3
+	if fold != final {
+		return []viol{{"variants/set/fold-differs-from-contents", fmt.Sprintf("folding the mutations reported to a subscriber registered from the start yields %s but the set holds %s", mstr(fold), mstr(final)), nil}}, st
+	}
 	for g := range subs {
 		for _, sb := range subs[g] {
 			st.subs++
@@ -1109,6 +1138,23 @@ func runVariantsSet(rng *rand.Rand) (viols []viol, st runStats) {
 		}
 	}
 	return
+}
+
+var serixAPI = serix.NewAPI()
+
+func mask64(s ds.ReadableSet[int64]) (m uint32) {
+	s.Range(func(e int64) { m |= 1 << uint(e) })
+	return
+}
+
+func set64(m uint32) ds.Set[int64] {
+	s := ds.NewSet[int64]()
+	for e := 0; e < 32; e++ {
+		if m&(1<<uint(e)) != 0 {
+			s.Add(int64(e))
+		}
+	}
+	return s
 }
 
 func bitsTZ(m uint32) int {
